@@ -38,7 +38,7 @@ func expectDeltas(prop string, c *chainkit.Chain, pre map[util.Uint160]int64, wa
 func TestC19Main(t *testing.T) {
 	theT = t
 	col := ev.New("C19", "main",
-		"rapid state machine on the main-chain NeoFS+Processing contracts (with Notary: Alphabet = chain committee of 1 or 4 keys; without Notary: 1..4 stored keys): GAS deposits with amounts {-1,0,1,random,9000 GAS-1,9000 GAS,9000 GAS+1} and data {nil, empty, 20 bytes, 19, 21, the 2-byte ignore marker, 2 other bytes, an integer}; direct onNEP17Payment calls and payments in a foreign token; withdraw 0..9001 with/without the user's witness under changing WithdrawFee; cheque by the Alphabet / by others (Notary mode) and approved by single votes of the stored keys in generated order (without Notary: paid exactly by the vote completing 2k/3+1, with another ballot pending, with a vote sent again afterwards); candidate registration under changing fee; per transaction the exact GAS deltas of all parties (fees isolated on a separate payer), the Deposit/Withdraw/Cheque notifications and after every step contract balance = received - cheques; non-trivial = history with an accepted deposit, a refused deposit at a boundary and a withdraw or cheque",
+		"rapid state machine on the main-chain NeoFS+Processing contracts (with Notary: Alphabet = chain committee of 1 or 4 keys; without Notary: 1..4 stored keys): GAS deposits with amounts {-1,0,1,random,9000 GAS-1,9000 GAS,9000 GAS+1} and data {nil, empty, 20 bytes, 19, 21, the 2-byte ignore marker, 2 other bytes, an integer}; direct onNEP17Payment calls and payments in a foreign token; withdraw 0..9001 with/without the user's witness under changing WithdrawFee (without Notary also by a user that is itself a stored Alphabet key, at any position); cheque by the Alphabet / by others (Notary mode) and approved by single votes of the stored keys in generated order (without Notary: paid exactly by the vote completing 2k/3+1, with another ballot pending, with a vote sent again afterwards); candidate registration under changing fee; per transaction the exact GAS deltas of all parties (fees isolated on a separate payer), the Deposit/Withdraw/Cheque notifications and after every step contract balance = received - cheques; non-trivial = history with an accepted deposit, a refused deposit at a boundary and a withdraw or cheque",
 		"transaction fees are paid by a separate account", "vote collection without Notary is C17; here the non-Notary mode checks the per-key withdraw fee and that a voted cheque is paid exactly once")
 	runRapid(t, col, func(rt *rapid.T, h *ev.History) {
 		notaryDisabled := rapid.IntRange(0, 2).Draw(rt, "noNotary") == 0
@@ -212,6 +212,19 @@ func TestC19Main(t *testing.T) {
 			case "withdraw":
 				ui := rapid.IntRange(0, 2).Draw(rt, "user")
 				u := users[ui]
+				uname := fmt.Sprintf("user%d", ui)
+				if notaryDisabled && rapid.IntRange(0, 2).Draw(rt, "userIsAStoredKey") == 0 {
+					// the withdrawing user is itself one of the stored Alphabet keys: it pays every other key
+					// (the payment to itself is neutral), whatever its position in the list
+					ki := rapid.IntRange(0, len(w.members)-1).Draw(rt, "storedKey")
+					u = w.members[ki]
+					uname = fmt.Sprintf("the account of stored key %d", ki)
+					if w.c.GAS(u.ScriptHash()) < 50*gasUnit {
+						w.c.FundGAS(u.ScriptHash(), 100*gasUnit)
+						pre = gasLedger(w.c, watch)
+					}
+					h.Mark("withdraw-by-a-stored-alphabet-key")
+				}
 				amount := int64(rapid.SampledFrom([]int{-1, 0, 1, 17, 8999, 9000, 9001}).Draw(rt, "amount"))
 				witness := rapid.IntRange(0, 5).Draw(rt, "noWitness") != 0
 				signers := []neotest.Signer{u}
@@ -219,7 +232,7 @@ func TestC19Main(t *testing.T) {
 					signers = []neotest.Signer{users[(ui+1)%3]}
 				}
 				o := w.c.Invoke(signers, w.neofs, "withdraw", u.ScriptHash(), amount)
-				what := fmt.Sprintf("withdraw(user%d, %d) witness=%v fee=%d", ui, amount, witness, wfee)
+				what := fmt.Sprintf("withdraw(%s, %d) witness=%v fee=%d", uname, amount, witness, wfee)
 				h.Op("%s -> %s", what, o)
 				accept := witness && amount >= 0 && amount <= 9000
 				if accept != o.Halt {
